@@ -475,6 +475,22 @@ class VecEval:
                     return -1.7976931348623157e308
                 return a
             return _ew(_n2n, self.expr(e.args[0]), 0)
+        if isinstance(e.func, ast.Attribute) and short == 'clip' and not (isinstance(e.func.value, ast.Name) and e.func.value.id in ('np', 'numpy')):
+            v_ = self.expr(e.func.value)
+            kw = {k.arg: self.expr(k.value) for k in e.keywords}
+            pos = [self.expr(a) for a in e.args]
+            lo_ = kw.get('lower', kw.get('min', pos[0] if pos else None))
+            hi_ = kw.get('upper', kw.get('max', pos[1] if len(pos) > 1 else None))
+            if isinstance(v_, (int, float, list)) and not isinstance(v_, bool):
+                def _cl(a, b):
+                    if a != a:
+                        return a
+                    if lo_ is not None:
+                        a = max(a, lo_)
+                    if hi_ is not None:
+                        a = min(a, hi_)
+                    return a
+                return _ew(_cl, v_, 0)
         if fn in ('np.clip', 'numpy.clip') and len(e.args) == 3:
             v_, lo_, hi_ = (self.expr(a) for a in e.args)
             return _ew(lambda a, b: a if a != a else min(max(a, lo_), hi_), v_, 0)
